@@ -326,6 +326,16 @@ def check(ctx):
                             any(isinstance(m, ast.Name) and m.id in posvars for m in ast.walk(sl)):
                         vec_idx.add(norm(sl))
         if not vec_idx:
+            # the vector arguments walked in step with the NON-MISSING positions: zip(np.flatnonzero(~na), *vectors) pairs the k-th
+            # valid row with the k-th argument element, whatever its position
+            zs = [c for c in ast.walk(l.iter) if isinstance(c, ast.Call) and isinstance(c.func, ast.Name) and c.func.id == "zip"
+                  and c.args and "flatnonzero" in norm(c.args[0]) and len(c.args) > 1]
+            if zs:
+                ctx.ob("SIB-19", rp, norm(zs[0])[:80], zs[0], False,
+                       f"{norm(zs[0])[:60]} advances through the vector arguments once per NON-MISSING element of x: after a NaT the k-th valid "
+                       f"row receives the k-th argument value instead of the value at its own position (and zip silently stops short)",
+                       clause="all replace arguments (scalar or vector)")
+                continue
             raise AnalysisError(f"{rp.qualname}: no element of a vector argument is read in the loop that fills {outn}; "
                                 f"the position agreement of replace() arguments has nothing to judge")
         ok = vec_idx <= {pos} and bool(vec_idx)
